@@ -504,6 +504,9 @@ def render_system(desc, rd):
                 d[l] = UnitArray([q_bare(x, own, Q_DIM) for x in dflt[k * ncell:(k + 1) * ncell]], own[2])
         kw["state"] = d
     if desc["chemostats"] is not None:
+        # a flag is "int or bool": any non-zero integer flags the entry (the user guide itself uses 3 and 5)
+        loud = rd.r.random() < 0.3
+        flagv = lambda c_: (rd.r.choice([1, 2, 3, 5, 127]) if loud else 1) if c_ else 0
         if rd.r.random() < 0.25:
             # documented dictionary form: arrays per species label; species left out keep their species-level default
             dflt = default_chemostats(desc)
@@ -511,12 +514,12 @@ def render_system(desc, rd):
             for k, l in enumerate(labels):
                 sl = list(desc["chemostats"][k * ncell:(k + 1) * ncell])
                 if sl != list(dflt[k * ncell:(k + 1) * ncell]) or rd.r.random() < 0.5:
-                    d[l] = rd.seq(sl, integer=True)
+                    d[l] = rd.seq([flagv(c_) for c_ in sl], integer=True)
             items = list(d.items())
             rd.r.shuffle(items)
             kw["chemostats"] = dict(items)
         else:
-            kw["chemostats"] = rd.seq(list(desc["chemostats"]), integer=True)
+            kw["chemostats"] = rd.seq([flagv(c_) for c_ in desc["chemostats"]], integer=True)
     elif rd.r.random() < 0.1:
         dflt = default_chemostats(desc)
         kw["chemostats"] = {l: rd.seq(list(dflt[k * ncell:(k + 1) * ncell]), integer=True)
